@@ -367,6 +367,7 @@ func (w *mtWorkload) snapshot(ctx sdk.Context) *mtSnap {
 }
 
 func (w *mtWorkload) Observe(br *rig.BlockRecord) {
+	judgeSnapPanics(w.run, w.r, "C15:mt", false)
 	if w.quiet {
 		// on a shared chain there are no MT snapshots per tx: resynchronise the generator's view from the chain
 		w.model = w.snapshot(w.r.Ctx()).Classes
@@ -719,6 +720,7 @@ func runMT(run *ev.Run, c int) {
 	r := rig.New(rig.Options{Seed: fmt.Sprintf("mt-%d-%d", run.Seed, c), NumAccounts: 5, Balances: sdk.NewCoins(sdk.NewInt64Coin(rig.BondDenom, 1_000_000)), InflationOff: true, SubSecond: c%2 == 1})
 	w.Attach(run, r)
 	r.Snapshot = func(ctx sdk.Context) any { return w.snapshot(ctx) }
+	r.SnapRecover = true
 	blocks := tierN(run.Tier, 300, 1500)
 	for b := 0; b < blocks; b++ {
 		restartFromOwnExport(run, r, c, b, blocks)
